@@ -1,6 +1,6 @@
 (* C18/Run.v -- entry point of the correspondence check. *)
 From Coq Require Import ZArith List Bool.
-From AK Require Export Common.Sx Common.Err C18.Base C18.Model.
+From AK Require Export Common.Sx Common.Err C18.Base C18.Model C18.Session.
 Import ListNotations.
 
 (* one call of read_table on a generated worksheet, then get_attr_origin on every
@@ -8,7 +8,11 @@ Import ListNotations.
    (strict and non strict) *)
 Inductive case :=
 | Read (rows : list (list cval)) (rules : list rule) (nid : nat) (stop : str)
-       (ladder : bool) (qkeys : list str).
+       (ladder : bool) (qkeys : list str)
+(* a session: several readings in one process (any entry point: iter_table, read_table, a shared
+   XlsObjReadRules, the TableReader mixin of a class hierarchy) and in-place modifications of
+   values of produced objects in between; every object of every reading is observed at the END *)
+| Session (ops : list op).
 
 Definition sx_strs (l : list str) : sx := SL (map sx_str l).
 
@@ -47,6 +51,10 @@ Definition run_full (c : case) : sx :=
       let (items, e) := read_table (mkConfig rules nid stop ladder) rows in
       SL [ SL (map (sx_option (sx_obj qkeys)) items);
            sx_option (fun e => SZ (err_code e)) e ]
+  | Session ops =>
+      SL (map (fun rd => SL [ SL (map (sx_option (sx_obj (rd_qkeys rd))) (rd_items rd));
+                              sx_option (fun e => SZ (err_code e)) (rd_err rd) ])
+              (run_session ops))
   end.
 
 (* The read-back of a vm_compute result is not tail recursive in coqc, so the text printed
@@ -76,4 +84,11 @@ Definition run (c : case) : sx :=
                               | Some o => SZ (hash_sx (sx_obj qkeys o) 1)
                               end) items);
            sx_option (fun e => SZ (err_code e)) e ]
+  | Session ops =>
+      SL (map (fun rd => SL [ SL (map (fun it => match it with
+                                                 | None => SL [SZ 0]
+                                                 | Some o => SZ (hash_sx (sx_obj (rd_qkeys rd) o) 1)
+                                                 end) (rd_items rd));
+                              sx_option (fun e => SZ (err_code e)) (rd_err rd) ])
+              (run_session ops))
   end.
